@@ -61,6 +61,16 @@ def make(rng, index, n_entries=None, volumes=None, names=None, dates=None,
         else:
             nm = gen.hostile_name(rng, allow_bad_utf8=False, maxbytes=30)
         sub = rng.choice(['docs', 'docs/deep', 'a b', ''])
+        if rng.random() < 0.04:
+            # a legal location (< PATH_MAX) whose escaped form exceeds 8 KiB
+            unit = rng.choice(['\u4e2d', '\u00e9 ', '% '])
+            comps = []
+            for lvl in range(rng.randint(9, 12)):
+                c = 'l%d' % lvl + unit * 100
+                while len(c.encode('utf-8')) > 240:
+                    c = c[:-1]
+                comps.append(c)
+            sub = '/'.join(comps)
         base = (L.home if t['home'] else t['volume'])
         locdir = '/'.join(x for x in (base, sub) if x)
         loc = (locdir + '/' + nm) if locdir else nm
